@@ -332,13 +332,14 @@ class Check:
                   violations=len(self.violations) + (1 if (self.broken and not self.violations) else 0))
         EVIDENCE.mkdir(exist_ok=True)
         (EVIDENCE / f"{self.prop}.json").write_text(json.dumps(ev, indent=1, default=str))
+        out = sys.__stdout__
         for ln in lines:
-            print(ln)
+            print(ln, file=out)
         print(f"[{self.prop}] tier={self.tier} seed={self.seed} obligations={self.cov['discharged']}/"
               f"{self.cov['obligations']} evaluations={self.cov['evaluations']} distinct={len(self._distinct)} "
               f"violations={len(self.violations)} known={len(self.known)} broken={len(self.broken)} "
-              f"wall={ev['wall_s']}s → exit {code}")
-        sys.stdout.flush()
+              f"wall={ev['wall_s']}s → exit {code}", file=out)
+        out.flush()
         return code
 
 
